@@ -346,6 +346,17 @@ func init() {
 					gos = append(gos, s.GoSource(name))
 				}
 			}
+			for i, txt := range reinjectGrammars {
+				for wb := 0; wb < 2; wb++ {
+					s := ParseGSpec(txt)
+					s.WithBounds, s.Reinject = wb == 1, true
+					name := fmt.Sprintf("j%03d_%d", i, wb)
+					specs = append(specs, s)
+					names = append(names, name)
+					loxs = append(loxs, s.Lox())
+					gos = append(gos, s.GoSource(name))
+				}
+			}
 			pkgs := GenerateAll(root, names, loxs, gos, false)
 			for i, p := range pkgs {
 				if p.OK {
@@ -411,7 +422,7 @@ func init() {
 		{
 			var tn, tl, tg []string
 			for _, cs := range cases {
-				if cs.spec.WithBounds && !hasStarF(cs.spec) {
+				if cs.spec.WithBounds && !hasStarF(cs.spec) && !cs.spec.Reinject {
 					t := *cs.spec
 					t.NilTwin = true
 					tn = append(tn, cs.pkg.Name+"n")
@@ -502,12 +513,21 @@ func init() {
 			}
 			for i, w := range ins {
 				line := fmt.Sprintf("lr.parse %d %d | $%s | %s | %s", wb, 4*budget, p.Name, kinds, joinInts(typed[i]))
+				if s.Reinject {
+					// no model of recoverLookahead: a note line (echoed by the driver), judged by the oracle only
+					line = fmt.Sprintf("# reinject %s wb=%d input %s => %s", p.Name, wb, joinInts(typed[i]), outs[i])
+					c.Count("reinject-runs")
+				}
 				or := parseOracle(s, w, outs[i])
 				if or != "" {
 					or += " | grammar: " + strings.ReplaceAll(strings.TrimSpace(p.Lox), "\n", " ⏎ ") + " | input: " + fmt.Sprint(w)
 				}
 				c.Distinct(p.Lox + "|" + fmt.Sprint(w))
-				c.EmitO(line, outs[i], or)
+				if s.Reinject {
+					c.EmitO(line, line, or)
+				} else {
+					c.EmitO(line, outs[i], or)
+				}
 				switch {
 				case strings.HasPrefix(outs[i], "acc"):
 					c.Count("inputs-accepted")
